@@ -24,11 +24,11 @@ type PLeaf struct{ PDeep string }
 // Node is the struct used inside nested values: plain, JSON-tagged, unexported and embedded fields.
 type Node struct {
 	Name   string
-	Title  string            `json:"title"`
-	Count  int               `json:"count,omitempty"`
-	Any    any               `json:"any"`
+	Title  string `json:"title"`
+	Count  int    `json:"count,omitempty"`
+	Any    any    `json:"any"`
 	Kids   []any
-	Next   *Node             `json:"next"`
+	Next   *Node `json:"next"`
 	Arr    [2]any
 	Tags   map[string]string `json:"tags"`
 	M      map[string]any
